@@ -560,6 +560,18 @@ func init() {
 			}
 			c.emit(e)
 		}
+		// covers at zooms 0 and 1 (the whole world in one tile, or in up to four): every subset, every min zoom up to theirs
+		merge(0, [][3]int{{0, 0, 0}}, 0)
+		for mask := 1; mask < 16; mask++ {
+			var tiles [][3]int
+			for b := 0; b < 4; b++ {
+				if mask&(1<<uint(b)) != 0 {
+					tiles = append(tiles, [3]int{b % 2, b / 2, 1})
+				}
+			}
+			merge(1, tiles, 0)
+			merge(1, tiles, 1)
+		}
 		nsub := c.pick(4096, 65536)
 		for i := 0; i < nsub; i++ {
 			mask := i
